@@ -282,3 +282,22 @@ PROPS["C02"] = dict(
     assumptions=["IsValueNonString is an uninterpreted parameter", "paths with `[]` hints and creation are covered by correspondence, the identity theorem covers non-creating plain paths"],
     design_ref="DESIGN.md §5 C02",
 )
+
+PROPS["C05"] = dict(
+    title="Root-only load restriction confines every file read to its kustomization root",
+    facts=True,
+    modules=["Kust.Props.C05"],
+    theorems=["Kust.C05.hasPrefix_iff", "Kust.C05.R_prefix", "Kust.C05.word_prefix", "Kust.C05.clean_no_dots", "Kust.C05.restrict_sound",
+              "Kust.C05.load_confined", "Kust.C05.new_root_rules", "Kust.C05.stack_nodup", "Kust.C05.readers_use_loader"],
+    components=["path.clean", "path.hasprefix", "path.loader"],
+    oracle=True,
+    n_corr={"quick": 3000, "thorough": 40000}, n_oracle={"quick": 700, "thorough": 8000},
+    technique="Lean 4 proof (the string test ConfirmedDir.HasPrefix is exactly the path-component prefix test; Clean leaves no dot segments; restrictor soundness; loader-stack distinctness; decide over the SSA-regenerated list of direct FS reads) + Go/Lean correspondence of Clean/Join, HasPrefix and the loader on the in-memory FS + canary oracle over every path-bearing field on in-memory and on-disk (symlinked) trees",
+    level_text="Theorems: for all cleaned directories the containment test written on strings holds iff the root's components are a prefix of the directory's (so /root-evil is "
+               "outside /root); Clean of an absolute path has no . / .. / empty segment for every spelling; an accepted load is a file below the root and returns that "
+               "file's bytes; new roots are relative existing directories never equal/above a root on the stack, hence pairwise distinct; all direct reads in the build "
+               "closure are the reviewed ones. Symbolic-link resolution (filepath.EvalSymlinks, OS) is NOT modelled: covered by the on-disk oracle only.",
+    level_note=COMMON_NOTE + "The FS model is the in-memory file system (quirks of its root handling included); OS path resolution is outside the model.",
+    assumptions=["git/http loaders are outside the domain", "on-disk symlink semantics covered by the oracle"],
+    design_ref="DESIGN.md §5 C05",
+)
